@@ -23,6 +23,8 @@ def run(chk):
         dict(flavour="asan-ubsan", scen="det", runs=(1200, 30000), opts={"cb": 1}),
         dict(flavour="rel", scen="leg", runs=(800, 20000), opts={"cb": 2, "varyScale": 1}),
         dict(flavour="rel", scen="det", runs=(800, 20000), opts={"cb": 1, "maxMovable": 14}),
+        # the row-reordering pass (off in the stock efforts) always on, over two or three rows
+        dict(flavour="rel", scen="det", runs=(800, 20000), opts={"cb": 1, "maxMovable": 14, "reorderFocus": 1, "multiRow": 0}),
     ]
     # the code's polarity table / opposite-row function against the generator-based algebra (exhaustive)
     replay_cases(chk, "OrientCases", "OrientCases", "polarity x row orientation table and orientation algebra")
